@@ -246,7 +246,7 @@ func (c *Ctx) Finish() int {
 		"wall_s":      wall,
 		"violations":  len(real),
 	}
-	if c.Replay == "" && os.Getenv("VERIF_OVERLAY") == "" { // runs against a seeded change (overlay) never rewrite the evidence
+	if c.Replay == "" && os.Getenv("VERIF_OVERLAY") == "" && os.Getenv("VERIF_NO_EVIDENCE") == "" { // runs against a seeded change (overlay) never rewrite the evidence
 		os.MkdirAll(filepath.Join(c.Root, "evidence"), 0755)
 		b, _ := json.MarshalIndent(ev, "", " ")
 		if err := ioutil.WriteFile(filepath.Join(c.Root, "evidence", c.ID+".json"), append(b, '\n'), 0644); err != nil {
